@@ -48,7 +48,7 @@ type c20Case struct {
 	Steps []*c20Step
 }
 
-var c20Behaviours = []string{"ok", "issues=1", "issues=3", "exit=2", "kill", "garbage", "killout", "trailing"}
+var c20Behaviours = []string{"ok", "issues=1", "issues=3", "exit=2", "kill", "garbage", "killout", "trailing", "empty"}
 
 // c20Sanitize is the reference for the placeholder replacement: every "${{" up to the next "}}" is
 // replaced by '_' of the same byte length; an unclosed "${{" is left alone.
@@ -214,15 +214,20 @@ func c20Gen(r *Rand, fixedBehaviours []string, nFiles, maxSteps int, slowMs int)
 				switch {
 				case strings.HasPrefix(st.Behave, "exit="), st.Behave == "kill", st.Behave == "killout":
 					st.Fails = true
-				case (st.Behave == "garbage" || st.Behave == "trailing") && st.Tool == "shellcheck":
+				case (st.Behave == "garbage" || st.Behave == "trailing" || st.Behave == "empty") && st.Tool == "shellcheck":
+					// shellcheck always prints a JSON value ("[]" when it has nothing to say): no
+					// output at all is not its output format
 					st.Fails = true
 				}
-				if st.Fails || st.Behave == "garbage" || st.Behave == "trailing" {
+				if st.Fails || st.Behave == "garbage" || st.Behave == "trailing" || st.Behave == "empty" {
 					st.Issues = 0
 				}
 				// script lines
 				var lines []string
 				lines = append(lines, fmt.Sprintf("echo step-%d id=%d FT:%s", id, id, st.Behave))
+				if r.Chance(1, 5) {
+					lines = append(lines, "echo \"${A:-${B}}\" '{\"k\":{}}'")
+				}
 				nl := r.Intn(4)
 				for k := 0; k < nl; k++ {
 					ph := r.Pick(c20Placeholders)
@@ -237,6 +242,9 @@ func c20Gen(r *Rand, fixedBehaviours []string, nFiles, maxSteps int, slowMs int)
 						lines = append(lines, "echo adj "+ph+r.Pick(c20Placeholders)+ph)
 					default:
 						lines = append(lines, "echo unclosed ${{ github.sha")
+					}
+					if r.Chance(1, 4) { // a literal "}}" before the next placeholder
+						lines = append(lines, r.Pick([]string{"echo \"${OUT_DIR:-${RUNNER_TEMP}}\"", "echo '{\"a\":{\"b\":1}}'", "docker ps --format '{{.ID}}'", "x=}}"}))
 					}
 				}
 				big := 0
@@ -417,7 +425,7 @@ func c20WorkerMain(args []string) {
 
 // c20FaultPattern decodes idx into an assignment of behaviours to k <= 4 invocations.
 func c20FaultPattern(idx int) []string {
-	// k = 1..4 : 8 + 64 + 512 + 4096 = 4680 patterns
+	// k = 1..4 : 9 + 81 + 729 + 6561 = 7380 patterns
 	for k := 1; k <= 4; k++ {
 		n := 1
 		for i := 0; i < k; i++ {
@@ -436,7 +444,7 @@ func c20FaultPattern(idx int) []string {
 	return nil
 }
 
-const c20NumFaultPatterns = 8 + 64 + 512 + 4096
+const c20NumFaultPatterns = 9 + 81 + 729 + 6561
 
 var c20DiagRe = regexp.MustCompile(`^(shellcheck|pyflakes) reported issue in this script`)
 
@@ -658,6 +666,21 @@ func c20RunCase(out *workerOut, r *Rand, fam string, idx int, root, tier string)
 		} else {
 			out.nontrivial(fmt.Sprintf("%s|%d|fatal", fam, idx))
 			out.set("fatal_classes", c20FailClass(cs))
+			// the fatal error of a multi-file run names the file it occurred in: that file must
+			// contain a step whose tool invocation failed
+			if m := regexp.MustCompile(`fatal error while checking (\S+): `).FindStringSubmatch(lerr.Error()); m != nil {
+				named, ok := m[1], false
+				for _, s := range cs.Steps {
+					if s.Fails && (s.File == named || strings.HasSuffix(named, s.File) || strings.HasSuffix(s.File, named)) {
+						ok = true
+					}
+				}
+				if !ok {
+					out.viol(idx, "C20:fatal-error-attributed-to-file-without-failing-tool", fmt.Sprintf("the fatal error names %s, but no script of that file was given to a failing tool: %v", named, lerr), detail(nil))
+				} else {
+					out.count("fatal_error_file_attributions_checked", 1)
+				}
+			}
 		}
 	} else {
 		if lerr != nil {
@@ -795,7 +818,7 @@ func c20FailClass(cs *c20Case) string {
 
 func runC20(r *Run) {
 	r.Level = "fault_enumeration"
-	r.Rule = "generated projects of 1-8 workflows whose run: steps get their shell from the step, the job default, the workflow default or the runner (windows => pwsh); each script carries a unique id, placeholders at start/middle/end/adjacent/multi-line/unclosed positions and a behaviour marker for the fake tool (ok, k issues, exit!=0 without output, killed, garbage, slow). Fault enumeration: every assignment of the 8 behaviours (ok, 1 issue, 3 issues, exit!=0 without output, killed, garbage, killed after partial output, well-formed output followed by trailing text) to k<=4 tool invocations (4680 patterns; all in thorough, a seeded sample in quick). Oracles: tool log (exact stdin per eligible script, exactly once), diagnostics/fatal error vs. the planned behaviour, hook trace (semaphore and live-process bounds, nothing after return, every run has ended), also under -race and with NumCPU=2 (taskset). Non-trivial = distinct case with >= 1 tool invocation whose outcome (issues / fatal / ok) matched the model."
+	r.Rule = "generated projects of 1-8 workflows whose run: steps get their shell from the step, the job default, the workflow default or the runner (windows => pwsh); each script carries a unique id, placeholders at start/middle/end/adjacent/multi-line/unclosed positions and a behaviour marker for the fake tool (ok, k issues, exit!=0 without output, killed, garbage, slow). Fault enumeration: every assignment of the 9 behaviours (ok, 1 issue, 3 issues, exit!=0 without output, killed, garbage, killed after partial output, well-formed output followed by trailing text, exit 0 without any output) to k<=4 tool invocations (7380 patterns; all in thorough, a seeded sample in quick). Oracles: tool log (exact stdin per eligible script, exactly once), diagnostics/fatal error vs. the planned behaviour, hook trace (semaphore and live-process bounds, nothing after return, every run has ended), also under -race and with NumCPU=2 (taskset). Non-trivial = distinct case with >= 1 tool invocation whose outcome (issues / fatal / ok) matched the model."
 	r.Assume("the fake tool's log undercounts process lifetimes (start logged after exec, end before exit), so the concurrency bound cannot false-alarm")
 	r.Assume("pyflakes output that contains no '<stdin>:' line is ignored by design; only shellcheck must fail on garbage")
 	if r.ReplayOf != nil && r.ReplayOf.Family == "strace-cli" {
